@@ -26,8 +26,22 @@ RHOS = [None, None, Fraction(0), Fraction(1, 4), Fraction(3), Fraction(-2)]
 
 def gen(rng, tier):
     n_cases = 220 if tier == "quick" else 3000
-    for _ in range(n_cases):
-        case = FU.gen_form_case(rng, tier)
+    for k in range(n_cases):
+        case = FU.gen_form_case(rng, tier, heur_p=0.5)
+        if k % 5 == 4:
+            # heuristic-sensitive shape: a customer that can leave for the depot but cannot be entered from it, with the
+            # caches already filled by earlier queries
+            spec, info = VU.gen_planted(rng, ncust=rng.randint(2, 3), extra_arc_p=0.3, wide=True)
+            victim = rng.choice(spec["nodes"][1:])["name"]
+            spec["arcs"] = [a for a in spec["arcs"] if a[1] != victim] + ([[victim, "D", "1", "1"]] if not any(a[0] == victim and a[1] == "D" for a in spec["arcs"]) else [])
+            case = dict(form=rng.choice(["arc", "seq", "path"]), spec=spec, seed=rng.randrange(10 ** 6), heur=rng.choice(["10", "1"]),
+                        pre=rng.sample(["n", "obj", "con", "qubo_o", "qubo_f"], rng.randint(1, 3)))
+            if case["form"] == "arc":
+                case["grid"] = info["grid"]
+            elif case["form"] == "path":
+                case["routes"] = info["routes"][:1]
+            else:
+                case.update(strict=False, V=1, L=max(3, info["Lmin"]))
         case["feas"] = rng.random() < 0.4
         rho = rng.choice(RHOS)
         case["rho"] = None if rho is None else fs(rho)
@@ -80,6 +94,9 @@ def run_case(case, drv, nmax=None):
         res.fail(f"{form}:dims", f"R {impl['Rshape']}, Q_obj {impl['Qshape']}, len(c)={len(impl['c'])} for n={n}")
     if impl["r"] != 0:
         res.fail(f"{form}:r_eq", f"r_eq = {impl['r']}")
+    if res.failures:
+        # inconsistent dimensions: the identity cannot even be stated; report what was found
+        return res
     try:
         Q, k, shape = VU.qubo_dense(o, case["feas"], None if rho is None else float(rho))
         q_err = None
